@@ -7,6 +7,7 @@ Standard library only.  A mutation is accepted only if CPython still parses the 
                   `# fN` + blank + `# nN`   (far block, empty line, near block)
                   `# bN` + `# bN'`    (a two-line block)
                   blank + `# gN`      (an empty line, then a comment directly above the statement)
+                  `# fN` + two blanks, a lone line continuation `\\`, `# kN` + blank + lone line continuation
                   and after simple one-line statements a following comment line `# aN` (a trailing block)
   bracket_trivia  inside multi-line brackets, before a line that starts with an element: a comment line, or a comment
                   line followed by an empty line
@@ -50,7 +51,8 @@ def stmt_trivia(src: str, rng: random.Random, p=0.3) -> str:
             ind = text[:col]
             k += 1
             out += rng.choice(([ind + f'# f{k}', ''], [ind + f'# f{k}', '', ind + f'# n{k}'],
-                               [ind + f'# b{k}', ind + f"# b{k}'"], ['', ind + f'# g{k}']))
+                               [ind + f'# b{k}', ind + f"# b{k}'"], ['', ind + f'# g{k}'],
+                               [ind + f'# f{k}', '', ''], [ind + '\\'], [ind + f'# k{k}', '', ind + '\\']))
         out.append(text)
         m = ends.get(i)
         if m is not None and first and text[:col].strip() == '' and m.col_offset == len(text[:col].encode()) and \
@@ -98,6 +100,42 @@ def bracket_trivia(src: str, rng: random.Random, p=0.35) -> str:
     return res if _same(src, res) else src
 
 
+def multiline_strings(src: str, rng: random.Random, p=0.12) -> str:
+    """Multi-line string *expression statements* before statements inside blocks (this adds statements: the program
+    changes, it only has to stay a program).  The docstr option decides which of them may be re-indented with a block."""
+    try:
+        tree = ast.parse(src)
+    except SyntaxError:
+        return src
+    lines = src.split('\n')
+    starts = {}
+    for n in ast.walk(tree):
+        if isinstance(n, ast.stmt) and n.col_offset > 0 and not getattr(n, 'decorator_list', None):
+            starts.setdefault(n.lineno, n)
+    out = []
+    k = 0
+    for i, text in enumerate(lines, 1):
+        n = starts.get(i)
+        first = text.lstrip()
+        col = len(text) - len(first)
+        if n is not None and first and text[:col].strip() == '' and n.col_offset == len(text[:col].encode()) and \
+                not first.startswith(('elif ', 'else', 'except', 'finally', 'case ')) and rng.random() < p:
+            k += 1
+            out += [text[:col] + f'"""ms{k}', text[:col] + f'  cont{k}"""']
+        out.append(text)
+    res = '\n'.join(out)
+    try:
+        ast.parse(res)
+    except SyntaxError:
+        return src
+    return res
+
+
 def inject(src: str, seed: int) -> str:
+    from .layouts import semicolons
     rng = random.Random(seed * 131 + 7)
+    if seed % 3 == 0:  # `;`-joined statement lines first (the comment structures then go around the joined lines)
+        src = semicolons(src, rng, p=0.6)
+    if seed % 4 == 1:
+        src = multiline_strings(src, rng)
     return bracket_trivia(stmt_trivia(src, rng), rng)
